@@ -580,28 +580,39 @@ PROPS["C11"] = {
         "the sub-operation model (SubSys: File::create / path.exists() before the lock) is not tied to the code by a "
         "differential run (no hook); D14 was confirmed on the real code by sessx before the repair",
         "the read-back history uses limit 10^6 on both sides (Rl.Drv.FileSession.bigMax)"],
-    "unproved": ["C11_no_loss_counting_statement: the counting form of 'limit not exceeded' (|initial| + number of adds <= max, distinct "
-                 "lines) implies the per-append form C11_fitsRun under which C11_no_loss is proved",
-                 "C11_subop_refines_statement: for the repaired code every sub-operation run reaches only states of the "
-                 "operation-atomic system (proved instead: the D14 schedule is a counter-example before the repair and harmless after it)"],
+    "unproved": [],
     "level_text": "Unbounded Lean theorems about a labelled transition system of ANY number of FileHistory sessions (each with its own limit "
                   "and ignore settings) on one file, over every interleaving of load/add/append/save and every modification time the "
                   "environment may hand out: the file is always a file save_to wrote and always loads (C11_always_loads); an append with new "
                   "lines leaves exactly one of the three shapes of the spec - old ++ new, the store's acceptance/size rule folded over old ++ new, "
                   "or the new lines alone when they fill the limit (C11_append_shape); while old ++ new fits the session's store the file "
                   "is exactly old ++ new on every path, and along whole traces the file equals a ghost list that only grows at the end "
-                  "(C11_append_keeps, C11_no_loss); after a write the session has nothing unwritten and a second append writes nothing "
+                  "(C11_append_keeps, C11_no_loss). The counting form of 'limit not exceeded' is proved as stated (C11_no_loss_counting: fresh "
+                  "sessions with a common ignore-space setting, a trace of load/add/append, pairwise distinct lines, |initial| + number of adds <= "
+                  "every max_len imply the per-append form C11_fitsRun), and under it the system IS the reference program of the property text "
+                  "(C11_counting_file: the file is the initial entries followed, for every append in trace order, by the lines its session entered "
+                  "since its previous append/load; no line twice; only entered lines) and, for a session whose loads precede its adds, the lines of "
+                  "that session in the file followed by its unwritten lines are exactly the lines it entered, in the order entered "
+                  "(C11_counting_session); a common ignore-space setting is needed (C11_counting_needs_common_ignore_space). After a write the "
+                  "session has nothing unwritten and a second append writes nothing "
                   "whatever the others did in between (C11_write_resets, C11_no_double); with distinguishable modification times and loads "
                   "at start the file never exceeds the appending session's limit (C11_bound), and a load into a non-empty history breaks that "
-                  "(C11_bound_needs_load_at_start). Sub-operation model: D14 (save truncated before taking the lock) is an explicit "
-                  "counter-example schedule for the old code and harmless for the repaired code. The atomic model is tied to /repo by "
+                  "(C11_bound_needs_load_at_start). Sub-operation model (save = open ; [lock] write, append = exists? ; [lock] rest): for the "
+                  "repaired code with the file present every sub-step is a stutter or exactly one atomic operation and every reachable state "
+                  "(file, clock, all sessions) is a state of the operation-atomic system (C11_subop_step, C11_subop_refines_sys, "
+                  "C11_subop_refines = the stated refinement, C11_subop_always_loads as a transferred corollary); D14 (save truncated before "
+                  "taking the lock) is an explicit counter-example schedule for the old code, and both hypotheses of the refinement are needed "
+                  "(C11_subop_refines_needs_repair, C11_subop_refines_needs_file). The atomic model is tied to /repo by "
                   "exhaustive + random interleavings on real files; real concurrency is exercised by threads and processes with the "
                   "property oracle only.",
     "level_note": "Trusted: Lean kernel; harness/diff; atoms/UTF-8 as in C10; the file-system abstraction (whole-file writes, mtime as an "
-                  "environment input, flock = one step per call). True concurrency (threads, processes) is exercised, not proved. "
-                  "Partial: the counting form of no-loss and the refinement sub-operation => atomic for the repaired code are stated, not proved. "
+                  "environment input, flock = one step per call). True concurrency (threads, processes) is exercised, not proved; the "
+                  "sub-operation model, for which the refinement is proved, is not tied to the code by a differential run. "
+                  "No statement of Props/C11.lean is left unproved. "
                   "Sessions are assumed to share ignore-space when they share a file (a session with ignore-space drops blank-led lines "
-                  "another session wrote when it rewrites the file).",
+                  "another session wrote when it rewrites the file: C11_counting_needs_common_ignore_space). In the counting theorems a line "
+                  "entered before a load of the same session is never written (load resets new_entries; the reference program says so "
+                  "explicitly), which is why C11_counting_session asks for loads before adds.",
     "assumptions": ["the file exists before the sessions start (property quantifier); two sessions that both find it missing can lose a "
                     "line (C11_subop_missing_file_race)",
                     "sessions load at start (a load into a non-empty history records a wrong size: C11_bound_needs_load_at_start)",
